@@ -70,6 +70,15 @@ CHECKS = {
             'Trusted: render() abstraction in drivers/c06.py. 1x1 arrays are constants in multiply and pixels in '
             'insert/merge, so the latter are exercised with >= 2 elements.',
             'TLA+ embedding semantics evaluated by TLC as oracle, exact comparison with lentil'),
+    'C09': ('model_checking',
+            'Optics!PropagateFft specifies the FFT propagator as the DFT semantics on the grid K = round(1/alpha) at the reported '
+            'wavelength, with its refusals (shape*os > K, tilt metadata). TLC evaluates every case exactly; lentil runs it without '
+            'scratch and inside random histories of three calls sharing one scratch buffer (exactly scratch_shape(), larger, '
+            'dirty, reused after a larger grid); where lambda\' = lambda the real propagate_fft and propagate_dft are also compared.',
+            'DESIGN.md 5 C09',
+            'Trusted: harness/optics.py. Geometries whose axes imply different wavelengths and exact halves of round() are '
+            'outside the domain; shape=None only where K is a multiple of the oversampling.',
+            'exact DFT-at-reported-wavelength oracle in TLA+ (TLC), scratch histories replayed into lentil'),
 }
 
 NOT_YET = 'check not built yet in this round (planned, see DESIGN.md section 5)'
